@@ -14,8 +14,11 @@ dynamically, every schedule on a fresh database copy, every complete schedule ru
 required).  Oracle (per complete schedule): all N constructors returned, the N session ids are pairwise distinct and
 distinct from the pre-existing ids, and table `session` has exactly N new rows (old rows kept).
 
-TLC cross-check: models/SessionIds.tla is checked by TLC, its dumped state graph is parsed, every maximal path is
-replayed on the real workers and the per-step observations are compared.  The model never decides the verdict.
+TLC cross-check: the model is selected by the OBSERVED shape of the implementation (one sequential probe run): one
+insert per constructor -> models/SessionIdsAtomic.tla (repaired protocol), read then one-parameter insert ->
+models/SessionIds.tla (two-step protocol; id rule 'count' or 'max' read off the probe), anything else -> no model, a
+note in the evidence.  The selected model is checked by TLC, its dumped state graph is parsed, every maximal path is
+replayed on the real workers and the per-step observations are compared.  A model never decides the verdict.
 """
 import json
 import os
@@ -50,7 +53,7 @@ MANIFEST = {
     "text": "Two and three real worker processes construct Session() on one SQLite file; a controller owns every "
             "statement that touches the session table and enumerates all interleavings (stateless DFS, prefix replay, "
             "each schedule executed twice). Every complete schedule is judged: all constructors return, ids pairwise "
-            "distinct and new, exactly N new rows. A TLA+ model (TLC) enumerates the same interleavings independently; "
+            "distinct and new, exactly N new rows. A TLA+ model chosen by the observed protocol shape (atomic insert / read-then-insert) is checked by TLC and enumerates the same interleavings independently; "
             "each of its paths is replayed on the workers and compared step by step. Complete for N<=3 and the "
             "statement-level atomicity SQLite provides.",
     "note": "Trusted: SQLAlchemy event hooks see every statement; SQLite statement atomicity; classification of a "
@@ -59,8 +62,9 @@ MANIFEST = {
 
 TASK = "checks.c36"
 MODELS = os.path.join(os.path.dirname(os.path.dirname(os.path.abspath(__file__))), "models")
-TLC_N_QUICK = [2]
+TLC_N_QUICK = [2, 3]
 TLC_N_THOROUGH = [2, 3]
+QUICK_TLC_MAX_PATHS = 20      # quick tier: a larger path set (two-step model, N=3: 90) is replayed in thorough only
 MAX_TLC_PATHS = 5000
 TLC_TIMEOUT = 300
 
@@ -68,7 +72,9 @@ TLC_TIMEOUT = 300
 def space(ctx):
     return {"N": [2, 3], "scheduling_points": "every SQL statement on rows of table 'session' (discovered at run time)",
             "pre_existing_sessions": 1, "horizon": {"points_per_worker": 32, "schedule_runs": 20000, "tlc_paths": MAX_TLC_PATHS},
-            "tlc": TLC_N_THOROUGH if ctx.thorough else TLC_N_QUICK}
+            "tlc": {"N": TLC_N_THOROUGH if ctx.thorough else TLC_N_QUICK,
+                    "models": {"one insert per constructor": "SessionIdsAtomic", "read then one-parameter insert": "SessionIds"},
+                    "paths_replayed": "all" if ctx.thorough else "all if <= %d per N" % QUICK_TLC_MAX_PATHS}}
 
 
 # =====================================================================================================
@@ -520,21 +526,71 @@ def parse_dot(text):
     return init, nodes, edges
 
 
-def run_tlc(n, pre, tmp):
-    """Run TLC on models/SessionIds.tla for n processes; returns (info dict, paths) ; paths = list of [(action, proc, state_after)]."""
-    d = os.path.join(tmp, "tlc_N%d" % n)
+def observed_shape(n, run, pre):
+    """Which protocol does the implementation follow?  Decided from ONE sequential probe run (no interleaving).
+
+    -> (model name or None, constants dict, description).  'SessionIdsAtomic': every constructor is one step that
+    executes a single insert and returns.  'SessionIds': every constructor is a read step that ends paused at a
+    one-parameter insert, then the insert step; Rule is read off the first id computed ('count' = number of rows,
+    'max' = largest id + 1)."""
+    per = {}
+    for s in run.steps:
+        per.setdefault(s.w, []).append(s)
+    desc = "sequential probe [%s]" % schedule_text(run)
+    if run.status != "complete" or len(per) != n or not all(isinstance(x, int) and x >= 0 for x in pre):
+        return None, {}, desc
+    shapes = set(tuple(step_kinds(s) for s in steps) for steps in per.values())
+    if shapes == {("W",)}:
+        if all(steps[0].ev["ev"] == "done" for steps in per.values()):
+            return "SessionIdsAtomic", {"N": n, "PreRows": pre}, desc + ": one insert per constructor"
+        return None, {}, desc
+    if shapes == {("R", "W")}:
+        first = None
+        for s in run.steps:
+            ev = s.ev
+            params = ev.get("info", {}).get("params") if ev["ev"] == "point" and isinstance(ev.get("info"), dict) else None
+            if step_kinds(s) == "R":
+                if ev["ev"] != "point" or ev.get("kind") != "W" or not isinstance(params, list) or len(params) != 1 \
+                        or not isinstance(params[0], int):
+                    return None, {}, desc + ": read not followed by a one-parameter insert"
+                if first is None:
+                    first = params[0]
+            elif ev["ev"] == "point":
+                return None, {}, desc + ": constructor continues after its insert"
+        if first == len(pre):
+            rule = "count"
+        elif first == (max(pre) + 1 if pre else 1):
+            rule = "max"
+        else:
+            return None, {}, desc + ": first id %r is neither the row count nor max(id)+1 of %r" % (first, pre)
+        return "SessionIds", {"N": n, "PreRows": pre, "Rule": rule}, desc + ": read then insert, id rule '%s'" % rule
+    return None, {}, desc + ": statements per constructor %s" % sorted(shapes)
+
+
+def _tla_const(v):
+    if isinstance(v, str):
+        return '"%s"' % v
+    if isinstance(v, (list, tuple, set)):
+        return "{" + ", ".join(str(int(x)) for x in sorted(v)) + "}"
+    return str(int(v))
+
+
+def run_tlc(model, consts, tmp):
+    """Run TLC on models/<model>.tla with the given constants.
+    -> (info dict, paths); paths = list of [(action, proc, state_after)]: every maximal path of the state graph."""
+    d = os.path.join(tmp, "tlc_%s_N%d" % (model, consts["N"]))
     os.makedirs(d)
-    shutil.copyfile(os.path.join(MODELS, "SessionIds.tla"), os.path.join(d, "SessionIds.tla"))
-    with open(os.path.join(MODELS, "SessionIds.cfg")) as f:
+    shutil.copyfile(os.path.join(MODELS, model + ".tla"), os.path.join(d, model + ".tla"))
+    with open(os.path.join(MODELS, model + ".cfg")) as f:
         cfg = f.read()
-    cfg, k1 = re.subn(r"(?m)^(\s*N\s*=\s*)\d+", lambda m: m.group(1) + str(n), cfg)
-    cfg, k2 = re.subn(r"(?m)^(\s*Pre\s*=\s*)\d+", lambda m: m.group(1) + str(pre), cfg)
-    if k1 != 1 or k2 != 1:
-        raise RuntimeError("models/SessionIds.cfg: constants N / Pre not found")
-    with open(os.path.join(d, "SessionIds.cfg"), "w") as f:
+    for name, val in consts.items():
+        cfg, k = re.subn(r"(?m)^(\s*%s\s*=\s*).*$" % re.escape(name), lambda m: m.group(1) + _tla_const(val), cfg)
+        if k != 1:
+            raise RuntimeError("models/%s.cfg: constant %s not found" % (model, name))
+    with open(os.path.join(d, model + ".cfg"), "w") as f:
         f.write(cfg)
     p = subprocess.run(["tlc", "-workers", "1", "-noGenerateSpecTE", "-metadir", os.path.join(d, "meta"), "-deadlock",
-                        "-continue", "-dump", "dot,actionlabels", os.path.join(d, "graph"), "SessionIds"],
+                        "-continue", "-dump", "dot,actionlabels", os.path.join(d, "graph"), model],
                        cwd=d, capture_output=True, text=True, timeout=TLC_TIMEOUT)
     out = p.stdout + p.stderr
     m = re.search(r"(\d+) states generated, (\d+) distinct states found, (\d+) states left on queue", out)
@@ -563,15 +619,17 @@ def run_tlc(n, pre, tmp):
 
     dfs(init, [])
     info = {"states": len(nodes), "transitions": sum(len(v) for v in edges.values()),
-            "invariant_violated": "Invariant AllCreated is violated" in out, "capped": capped, "init": nodes[init]}
+            "violated": sorted(set(re.findall(r"Invariant (\w+) is violated", out))), "capped": capped, "init": nodes[init]}
     return info, paths
 
 
-def conform(n, path, run):
+def conform(model, n, path, run):
     """Compare one TLC path with its replay.  -> ('conform' | 'shape' | 'diverge', detail).
 
-    Shape first (does the implementation still execute one read and one one-parameter insert per constructor, in the
-    order the path prescribes?), values only for a path whose shape matches."""
+    Shape first (does the implementation execute, step by step, the statements the model's actions stand for?), values
+    only for a path whose shape matches: table rows after every step, the id about to be inserted after a Read, the
+    outcome (returned id / failed) after an Insert."""
+    idvar = "got" if model == "SessionIdsAtomic" else "seen"
     if run.status != "complete" or len(run.steps) != len(path):
         done = len(run.steps)
         what = ""
@@ -596,13 +654,13 @@ def conform(n, path, run):
         if act == "Read":
             got = ev["info"]["params"][0]
             if got != after["seen"][proc - 1]:
-                return "diverge", "Read(%d): implementation will insert id %r, model read %r" % (proc, got, after["seen"][proc - 1])
+                return "diverge", "Read(%d): implementation will insert id %r, model computed %r" % (proc, got, after["seen"][proc - 1])
         else:
             st = after["pc"][proc - 1]
             if (ev["ev"] == "done") != (st == "done"):
                 return "diverge", "Insert(%d): implementation %s, model %s" % (proc, ev["ev"], st)
-            if ev["ev"] == "done" and ev["result"]["session_id"] != after["seen"][proc - 1]:
-                return "diverge", "Insert(%d): session_id %r, model %r" % (proc, ev["result"]["session_id"], after["seen"][proc - 1])
+            if ev["ev"] == "done" and ev["result"]["session_id"] != after[idvar][proc - 1]:
+                return "diverge", "Insert(%d): session_id %r, model %r" % (proc, ev["result"]["session_id"], after[idvar][proc - 1])
     return "conform", ""
 
 
@@ -612,33 +670,49 @@ def run_tlc_shard(ctx, n):
     if shutil.which("tlc") is None:
         acc.note("tlc not on PATH: TLC cross-check skipped (verdict rests on the direct exploration)")
         return acc
+    probe = env.pool.groups[0].run(n, (), env.fresh, env.observe)
+    model, consts, desc = observed_shape(n, probe, env.pre)
+    if model is None:
+        acc.note("TLC N=%d: no model matches the observed shape of the implementation (%s); known shapes: one insert per "
+                 "constructor (SessionIdsAtomic), read then one-parameter insert (SessionIds). No conformance replay; the "
+                 "verdict rests on the direct exploration only" % (n, desc))
+        acc.count("tlc_no_model_for_observed_shape", 1)
+        return acc
     tmp = tempfile.mkdtemp(prefix="verif_c36_tlc_")
     try:
         try:
-            info, paths = run_tlc(n, len(env.pre), tmp)
+            info, paths = run_tlc(model, consts, tmp)
         except Exception as e:                                # a broken model tool chain is not a verdict
-            acc.harness_error("TLC N=%d: %s" % (n, e))
+            acc.harness_error("TLC N=%d %s: %s" % (n, model, e))
             return acc
     finally:
         shutil.rmtree(tmp, ignore_errors=True)
+    acc.count("tlc_model_%s" % model, 1)
     acc.count("tlc_states", info["states"])
     acc.count("tlc_transitions", info["transitions"])
     acc.count("tlc_states_N%d" % n, info["states"])
     acc.count("tlc_paths_N%d" % n, len(paths))
+    head = "TLC N=%d: model %s selected by observed shape (%s), constants %s: %d states, %d transitions, %d maximal paths; " \
+           "model invariants violated: %s" % (n, model, desc, ", ".join("%s=%s" % (k, _tla_const(v)) for k, v in sorted(consts.items())),
+                                              info["states"], info["transitions"], len(paths), ", ".join(info["violated"]) or "none")
     if info["capped"]:
         acc.note("TLC N=%d: more than %d maximal paths, only the first %d replayed" % (n, MAX_TLC_PATHS, MAX_TLC_PATHS))
-    if info["init"].get("rows") != env.pre:
-        acc.note("TLC N=%d: model initial rows %r differ from the warmed-up table %r (the model numbers sessions from 0)"
-                 % (n, info["init"].get("rows"), env.pre))
+    if not ctx.thorough and len(paths) > QUICK_TLC_MAX_PATHS:
+        acc.note(head + "; %d paths are replayed in the thorough tier only (quick replays up to %d per N)"
+                 % (len(paths), QUICK_TLC_MAX_PATHS))
+        return acc
     results = {}
+    idvar = "got" if model == "SessionIdsAtomic" else "seen"
 
     def handle(group, i):
         path = paths[i]
         sched = tuple(proc - 1 for _, proc, _ in path)
         run = group.run(n, sched, env.fresh, env.observe, strict=True)
         verdict = judge(n, run, env.pre) if run.status == "complete" else "incomplete"
-        model_fails = any(x == "failed" for x in path[-1][2]["pc"]) or len(set(path[-1][2]["seen"])) < n
-        results[i] = (conform(n, path, run), len(run.steps), model_fails, verdict is not None)
+        last = path[-1][2] if path else info["init"]
+        ids = [last[idvar][q] for q in range(n) if last["pc"][q] == "done"]
+        model_fails = any(x != "done" for x in last["pc"]) or len(set(ids)) < len(ids)
+        results[i] = (conform(model, n, path, run), len(run.steps), model_fails, verdict is not None)
         return []
 
     errs = env.pool.map_dynamic(list(range(len(paths))), handle)
@@ -661,17 +735,15 @@ def run_tlc_shard(ctx, n):
     acc.count("tlc_paths_conform", tally["conform"])
     acc.count("tlc_paths_shape_mismatch", tally["shape"])
     acc.count("tlc_paths_diverged", tally["diverge"])
-    acc.note("TLC N=%d: %d states, %d transitions, %d maximal paths; model invariant AllCreated %s; replay on the workers: "
-             "%d conform, %d shape mismatch, %d diverge; on the conforming paths the model predicts a failed constructor on "
-             "%d, model and implementation verdict agree on %d/%d"
-             % (n, info["states"], info["transitions"], len(paths), "violated" if info["invariant_violated"] else "holds",
-                tally["conform"], tally["shape"], tally["diverge"], mfail, agree, tally["conform"]))
+    acc.note(head + "; replay on the workers: %d conform, %d shape mismatch, %d diverge; on the conforming paths the model "
+             "predicts a failed constructor or a duplicate id on %d, model and implementation verdict agree on %d/%d"
+             % (tally["conform"], tally["shape"], tally["diverge"], mfail, agree, tally["conform"]))
     if tally["shape"]:
-        acc.note("TLC N=%d: the implementation no longer has the model's read-then-insert shape (%s); the model is stale, "
-                 "the verdict rests on the direct exploration only" % (n, first["shape"]))
+        acc.note("TLC N=%d: under interleaving the implementation does not keep the shape of %s (%s); the model does not "
+                 "describe it, the verdict rests on the direct exploration only" % (n, model, first["shape"]))
     if tally["diverge"]:
-        acc.note("TLC N=%d: model and implementation diverge (%s); the model is stale or too coarse, the verdict rests on "
-                 "the direct exploration only" % (n, first["diverge"]))
+        acc.note("TLC N=%d: %s and the implementation diverge (%s); the model is stale or too coarse, the verdict rests on "
+                 "the direct exploration only" % (n, model, first["diverge"]))
     return acc
 
 
